@@ -90,6 +90,22 @@ def mixed_query(rng, n):
     return {"meta": meta, "sql": sql, "rows": rows}
 
 
+def shifted_query(rng, n):
+    """variance / standard deviation are shift-invariant: large-magnitude inputs (v = offset + vs) must give the value of the small shadow inputs vs"""
+    off = rng.choice([30000000, 1000000000, 1700000000000])
+    fns = rng.sample(["var", "vars", "stddev", "stddevs"], rng.choice([1, 2, 4]))
+    items, aggs = [], []
+    for k, fn in enumerate(fns):
+        items.append("%s(v) AS a%d" % (fn, k))
+        aggs.append({"al": "a%d" % k, "fn": fn, "arg": {"k": "shadow", "c": "vs"}, "p": 0})
+    rows = []
+    for i in range(n * 2):
+        vs = rng.choice([0, 1, 2, 3, 4, 6, 8])
+        rows.append({"id": i + 1, "vs": vs, "v": ({"$f": float(off + vs)} if rng.random() < 0.5 else {"$big": str(off + vs), "t": "int64"})})
+    return {"meta": {"fam": "batch", "carrier": "counting", "n": n, "gcols": [], "gout": [], "aggs": aggs},
+            "sql": "SELECT %s FROM stream GROUP BY CountingWindow(%d)" % (", ".join(items), n), "rows": rows}
+
+
 def run(tier):
     res = vlib.Result("C03", tier)
     rng = random.Random(vlib.seed())
@@ -144,6 +160,8 @@ def run(tier):
         scen.append({"meta": meta, "sql": sql, "rows": rows})
     for _ in range(60 if quick else 600):
         scen.append(mixed_query(rng, rng.choice([2, 3, 4])))
+    for _ in range(40 if quick else 400):
+        scen.append(shifted_query(rng, rng.choice([3, 4, 5])))
     seqfam.run_scenarios(res, scen, "TraceBatch", tag="agg")
     res.cov["exhaustive"] = not quick
     res.cov["distinct_nontrivial"] = len({json.dumps(s["rows"], sort_keys=True) + s["sql"] for s in scen})
